@@ -761,12 +761,13 @@ def r13_operand_choice(repo: Repo, rep):
     else:
         binds = [a.value for a in ast.walk(fi.node) if isinstance(a, ast.Assign) and any(isinstance(t, ast.Name) and t.id == sel for t in a.targets)]
         random_src = any(isinstance(x, ast.Call) and (attr_chain(x.func) or "").split(".")[-1] in ("rand", "rand_like", "randint", "bernoulli", "multinomial", "random", "choice") for b in binds for x in ast.walk(b))
-        fixed = all(isinstance(b, ast.Constant) or (isinstance(b, ast.UnaryOp) and isinstance(b.op, ast.Not) and dump(b.operand) == sel) for b in binds)
+        fixed = all(isinstance(b, ast.Constant) or (isinstance(b, ast.UnaryOp) and isinstance(b.op, ast.Not) and dump(b.operand) == sel)
+                    or (isinstance(b, ast.BinOp) and isinstance(b.op, ast.Sub) and dump(b.left) == "1" and dump(b.right) == sel) for b in binds)
         if random_src:
             rep.ok(R, fi.site(), fi.fq, "operand boundary chosen at random", f"{sel} := {[dump(b)[:40] for b in binds]}")
         elif fixed and binds:
             rep.violation(R, fi.site(), fi.fq, "the operand boundary of a proposal is chosen at random, in proportion to the boundary measures",
-                          f"`{sel}` starts at {dump(binds[0])} and alternates: the first operand is always tried first", f"fixed alternation of {sel}")
+                          f"`{sel}` starts at {dump(binds[0])} and alternates: the first operand is always tried first", "fixed alternation starting with the first operand")
         else:
             rep.undecided(R, fi.site(), fi.fq, "selector recognisable as random or as a fixed alternation", f"{[dump(b)[:40] for b in binds]}")
     ci = repo.cls(f"{DOM}.domainoperations.union.UnionDomain")
@@ -788,6 +789,136 @@ def r13_operand_choice(repo: Repo, rep):
         member = any(isinstance(x, ast.Call) and isinstance(x.func, ast.Attribute) and x.func.attr == "_contains" for t in texts for x in ast.walk(deref(t, tmp)))
         rep.check(R, not member, f2.site(c), f2.fq, "the selection mask is the volume-ratio draw alone (a b-candidate inside a is rejected and redrawn, not swapped for the a-candidate)",
                   "the mask also holds where the b-candidate lies in a: those rows take the a-candidate", "membership of the b-candidate ORed into the selection")
+
+
+def r14_lattice_aspect(repo: Repo, rep):
+    from ..absdom.poly import RF, NotPoly, to_rf
+    from ..util import deref, single_defs
+    R = rep.rule("R-C11-14", "the barycentric lattice of a parallelogram has its line counts in the ratio of the side lengths (n_1 : n_2 = |dir_1| : |dir_2|, n_1 * n_2 ~ n): "
+                 "the first lattice axis multiplies dir_1", floor=1,
+                 why="with the ratio inverted a 4 x 1 box gets a 5 x 20 lattice: equal-measure strips across the long side receive no point at all")
+    ci = repo.cls(f"{DOM}.domain2D.parallelogram.Parallelogram")
+    fi = ci.methods.get("_compute_barycentric_grid")
+    if fi is None:
+        raise AnalysisError("Parallelogram._compute_barycentric_grid vanished")
+    rep.saw(fi)
+    tmp = single_defs(fi.node)
+    d1, d2 = fi.params[2], fi.params[3]
+    mg = [c for c in ast.walk(fi.node) if isinstance(c, ast.Call) and attr_chain(c.func) == "torch.meshgrid"]
+    if not mg:
+        rep.undecided(R, fi.site(), fi.fq, "torch.meshgrid of the two lattice axes", "not found")
+        return
+    axes = list(mg[0].args[0].elts) if len(mg[0].args) == 1 and isinstance(mg[0].args[0], (ast.Tuple, ast.List)) else list(mg[0].args)
+    if len(axes) != 2:
+        rep.undecided(R, fi.site(mg[0]), fi.fq, "two lattice axes", f"{len(axes)}")
+        return
+
+    def count_of(axis):
+        v = deref(axis, tmp)
+        while isinstance(v, ast.Subscript):
+            v = v.value
+        if not (isinstance(v, ast.Call) and attr_chain(v.func) == "torch.linspace"):
+            return None
+        steps = kwarg(v, "steps", 2)
+        if steps is None:
+            return None
+        e = deref(steps, tmp)
+        # n_k + 2  ->  n_k  ->  int(sqrt(E))  ->  E
+        while True:
+            if isinstance(e, ast.BinOp) and isinstance(e.op, (ast.Add, ast.Sub)) and isinstance(e.right, ast.Constant):
+                e = e.left
+            elif isinstance(e, ast.Call) and attr_chain(e.func) in ("int", "round", "math.floor", "math.ceil", "torch.floor", "torch.ceil", "max") and e.args:
+                e = e.args[0]
+            else:
+                break
+        if isinstance(e, ast.Call) and attr_chain(e.func) in ("torch.sqrt", "math.sqrt", "np.sqrt") and e.args:
+            return e.args[0]
+        if isinstance(e, ast.BinOp) and isinstance(e.op, ast.Pow) and dump(e.right) in ("0.5", "1 / 2"):
+            return e.left
+        return None
+
+    def atom(x):
+        if isinstance(x, ast.Call) and (attr_chain(x.func) or "").endswith("linalg.norm") and x.args:
+            a = dump(deref(x.args[0], tmp))
+            return RF.atom("S1") if a == d1 else RF.atom("S2") if a == d2 else None
+        if isinstance(x, ast.Name):
+            return RF.atom(x.id)
+        return None
+    e1, e2 = count_of(axes[0]), count_of(axes[1])
+    if e1 is None or e2 is None:
+        rep.undecided(R, fi.site(), fi.fq, "line counts of the form int(sqrt(E)) (+ constant)", f"{dump(axes[0])[:40]} / {dump(axes[1])[:40]}")
+        return
+    try:
+        E1, E2 = to_rf(deref(e1, tmp), atom), to_rf(deref(e2, tmp), atom)
+    except NotPoly as err:
+        rep.undecided(R, fi.site(), fi.fq, "line counts rational in n and the side lengths", str(err)[:100])
+        return
+    n_, S1, S2 = RF.atom(fi.params[1]), RF.atom("S1"), RF.atom("S2")
+    ok = E1 * E2 == n_ * n_ and E1 * S2 * S2 == E2 * S1 * S1
+    rep.check(R, ok, fi.site(), fi.fq, "n_1^2 = n |dir_1| / |dir_2| and n_2^2 = n |dir_2| / |dir_1| (first axis along dir_1)", f"n_1^2 = {E1!r}, n_2^2 = {E2!r} (S1 = |dir_1|, S2 = |dir_2|)", f"{E1!r} | {E2!r}")
+
+
+def r15_boundary_round_shares(repo: Repo, rep):
+    from ..absdom.poly import RF, NotPoly, to_rf
+    from ..util import deref, single_defs
+    R = rep.rule("R-C11-15", "random points on a Boolean boundary are requested round by round in the ratio of the two operand boundaries' measures (_compute_boundary_ratio), "
+                 "not `whatever is still missing` from the operand whose turn it is", floor=2,
+                 why="asking the first operand for all n points leaves only left-overs for the second: a circular hole in a square gets no point (its share should be 28 %)")
+    h = repo.module("problem.domains.domainoperations.sampler_helper")
+    fi, fr = h.functions.get("_random_points_boundary"), h.functions.get("_compute_boundary_ratio")
+    if fi is None or fr is None:
+        raise AnalysisError("_random_points_boundary / _compute_boundary_ratio vanished")
+    rep.saw(fi), rep.saw(fr)
+    seen_req = {}
+    for p in paths(fi.node):
+        if p.ret is RAISE:
+            continue
+        for e in p.events:
+            if e.value is None:
+                continue
+            for c in ast.walk(e.value):
+                if isinstance(c, ast.Call) and isinstance(c.func, ast.Attribute) and c.func.attr == "sample_random_uniform" and "boundary" in dump(c.func.value):
+                    v = kwarg(c, "n", 0)
+                    from_ratio = v is not None and any(isinstance(x, ast.Call) and (attr_chain(x.func) or "").endswith("_compute_boundary_ratio") for x in ast.walk(v)) \
+                        and isinstance(v, ast.Subscript)
+                    key = dump(v)[:80] if v is not None else "None"
+                    seen_req.setdefault(key, (from_ratio, c))
+    if not seen_req:
+        rep.undecided(R, fi.site(), fi.fq, "per-round proposal calls", "none found")
+    for key, (from_ratio, c) in seen_req.items():
+        rep.check(R, from_ratio, fi.site(c), fi.fq, "the request of a round is the operand's entry of _compute_boundary_ratio(..)", f"n = {key}", f"round request {key[:60]}")
+    # the helper's two entries are proportional to the operand boundary measures
+
+    def atom(x):
+        if isinstance(x, ast.Call) and isinstance(x.func, ast.Attribute) and x.func.attr in ("volume", "_get_volume"):
+            t = dump(x.func.value)
+            return RF.atom("A" if "domain_a" in t else "B" if "domain_b" in t else "M")
+        if isinstance(x, ast.Name):
+            return RF.atom(x.id)
+        return None
+
+    def core(e):
+        while True:
+            if isinstance(e, ast.Call) and attr_chain(e.func) in ("int", "math.ceil", "math.floor", "round", "max") and e.args:
+                e = e.args[0]
+            elif isinstance(e, ast.BinOp) and isinstance(e.op, (ast.Add, ast.Sub)) and isinstance(e.right, ast.Constant):
+                e = e.left
+            else:
+                return e
+    tmp2 = single_defs(fr.node)
+    for p in paths(fr.node):
+        if p.ret is RAISE or p.ret is None:
+            continue
+        elts = p.ret.elts if isinstance(p.ret, (ast.List, ast.Tuple)) else None
+        if not elts or len(elts) != 2:
+            rep.undecided(R, fr.site(), fr.fq, "returns the two requests", dump(p.ret)[:80])
+            continue
+        try:
+            ra, rb = to_rf(core(elts[0]), atom), to_rf(core(elts[1]), atom)
+        except NotPoly as err:
+            rep.undecided(R, fr.site(), fr.fq, "requests rational in the measures", str(err)[:80])
+            continue
+        rep.check(R, ra * RF.atom("B") == rb * RF.atom("A"), fr.site(), fr.fq, "request_a : request_b == |boundary a| : |boundary b|", f"{ra!r} vs {rb!r}", f"{ra!r}|{rb!r}")
 
 
 def r10_weighted_second_factor(repo: Repo, rep):
@@ -822,6 +953,8 @@ def run(repo: Repo, rep):
     r11_inside_grid_request(repo, rep)
     r12_lattice_layout(repo, rep)
     r13_operand_choice(repo, rep)
+    r14_lattice_aspect(repo, rep)
+    r15_boundary_round_shares(repo, rep)
     from .c10 import r1_r2_formulas  # mixture weights and the acceptance of dependent products use the measures: a signed / wrong volume shifts the point density between members
     r1_r2_formulas(repo, rep)
     r6b_dependency_flags(repo, rep)
@@ -835,10 +968,14 @@ def run(repo: Repo, rep):
     r8_gaussian(repo, rep)
     from .c18 import r5_consumers  # LHS strata must be built in the box of the current parameter row
     r5_consumers(repo, rep)
+    from .c18 import r15_lhs_per_row_per_axis  # one point per slab of EVERY axis needs independent permutations per axis; strata in the current row's box
+    r15_lhs_per_row_per_axis(repo, rep)
     from .c17 import r3_necessary_variables  # declared free variables switch the volume-weighted acceptance of dependent products
     r3_necessary_variables(repo, rep)
     from .c10 import r5d_exclusive_contributions  # a boundary piece kept from both operands receives twice the density of the rest
     r5d_exclusive_contributions(repo, rep)
+    from .c10 import r5_density  # uniformity of density-sampled unions: every piece gets ceil(d * measure) points - a doubled piece is twice as dense
+    r5_density(repo, rep)
 
 
 _CI = "src/torchphysics/problem/domains/domain2D/circle.py"
